@@ -8,8 +8,10 @@ PROP=$(python3 -c "import json;print(json.load(open('seeded/$ID/meta.json'))['pr
 [ -n "$(git -C /repo status --porcelain)" ] && { echo "/repo not clean"; exit 2; }
 git -C /repo apply /verif/seeded/$ID/patch.diff || { echo "| $ID | $PROP | $TIER | patch does not apply | |" >> seeded/RESULTS.md; exit 1; }
 OUT=.work/seed_$ID.$TIER.log
+cp evidence/$PROP.json .work/evidence_$PROP.saved 2>/dev/null
 ./check $PROP --tier $TIER "$@" > $OUT 2>&1; RC=$?
 git -C /repo checkout -- .
+# the evidence file now describes the mutated tree: put back the one from the clean tree
+[ -f .work/evidence_$PROP.saved ] && cp .work/evidence_$PROP.saved evidence/$PROP.json
 V=$(grep -c "^VIOLATION" $OUT); OB=$(grep -E "violated" $OUT | sed -E 's/.*\[(C[0-9]+ [A-Za-z0-9_]+)\].*/\1/' | tr '\n' ' ')
 echo "| $ID | $PROP | $TIER $* | exit=$RC violations=$V | $OB |" | tee -a seeded/RESULTS.md
-# the evidence file now describes the mutated tree: it is rewritten by the next run on the clean tree
